@@ -186,6 +186,13 @@ def run_enum(shard: dict, res: Res) -> None:
                     for v in VALUES:
                         stmt = render(m, shape, suffix, vtext_of(v), case)
                         judge(res, supported, m, shape, suffix, v, stmt, f"*=0x008000\n{stmt}\n", key_of(m, shape, suffix, v), True)
+        # an operand that merely starts with a parenthesised term is still a plain (direct / immediate) operand
+        for shape in ("dir", "dir_x", "dir_y", "imm"):
+            for suffix in ("", "b", "w"):
+                for text, v in (("(0x10)+1", 0x11), ("(0x1000)+(0x20)", 0x1020), ("(0x10)*2", 0x20), ("(0x8)<<4|1", 0x81), ("(1+2)*3", 9)):
+                    stmt = render(m, shape, suffix, text, "lower")
+                    judge(res, supported, m, shape, suffix, v, stmt, f"*=0x008000\n{stmt}\n", key_of(m, shape, suffix, v), True)
+                    res.count("paren_lead_cases")
         # spellings of the same value must not change the inferred width
         for shape, tpl, _ in SHAPES:
             if shape == "imp":
